@@ -137,9 +137,9 @@ fn main() {
         let n = entries.len();
         let turn = std::sync::Arc::new(std::sync::atomic::AtomicUsize::new(1));
         let barrier = std::sync::Arc::new(std::sync::Barrier::new(n));
-        let exits = 0; // threads that announce their own exit do not wait at the end barrier
-        let _ = exits;
-        let end_barrier = std::sync::Arc::new(std::sync::Barrier::new(n));
+        // bodies still running; threads that announce their own exit leave at once, the others stay until every
+        // body is done
+        let remaining = std::sync::Arc::new(std::sync::atomic::AtomicUsize::new(n));
         let frozen_mode = freeze != 0;
         native::FREEZE.store(freeze, std::sync::atomic::Ordering::SeqCst);
         let done_flags: &'static [std::sync::atomic::AtomicBool; 8] = Box::leak(Box::new(Default::default()));
@@ -149,7 +149,7 @@ fn main() {
             let pre = pres.get(&(i + 1)).map(|p| lookup(p));
             let turn = turn.clone();
             let barrier = barrier.clone();
-            let end_barrier = end_barrier.clone();
+            let remaining = remaining.clone();
             hs.push(std::thread::spawn(move || {
                 // prologues run one after another, ungated, each on its own thread
                 while turn.load(std::sync::atomic::Ordering::SeqCst) != id as usize {
@@ -166,13 +166,15 @@ fn main() {
                     // the body announced the exit of this thread: leave now, still gated, so that the
                     // thread-local destructors run as part of the schedule
                     done_flags[id as usize].store(true, std::sync::atomic::Ordering::SeqCst);
+                    remaining.fetch_sub(1, std::sync::atomic::Ordering::SeqCst);
                     return r.is_ok();
                 }
                 native::set_my_id(-1);
                 done_flags[id as usize].store(true, std::sync::atomic::Ordering::SeqCst);
                 // no thread exits (and runs its thread-local destructors) before all bodies are done
-                if !frozen_mode {
-                    end_barrier.wait();
+                remaining.fetch_sub(1, std::sync::atomic::Ordering::SeqCst);
+                while !frozen_mode && remaining.load(std::sync::atomic::Ordering::SeqCst) != 0 {
+                    std::thread::yield_now();
                 }
                 r.is_ok()
             }));
